@@ -160,6 +160,12 @@ def evaluate(t, atom_eval):
                 return False
             return None
     v = atom_eval(t)
+    if v is None and t[0] == "const":
+        # a test of a local the path has just bound to a literal (flags, results of inlined helpers)
+        try:
+            return bool(ast.literal_eval(t[1]))
+        except (ValueError, SyntaxError):
+            return None
     return v
 
 
